@@ -5,7 +5,7 @@
    objective) and of vle.py (xy, xVlogK_iter_2n) with exp / log as parameters, so that the same
    Gallina term is run against the code (with rational stand-ins substituted for np.exp / np.log in
    the module namespace) and is what the theorems are about.  No proofs in this file. *)
-From V Require Export Common.Num C03.Model.
+From V Require Export Common.Num C03.Model C04.KBase.
 From V Require C08.Model.
 Open Scope Q_scope.
 
@@ -48,61 +48,58 @@ Definition pf_objective (phi : Q) (zs Ks : vec) (za zb : Q) : Q :=
   let b := if qltb 0 zb then zb / (1 - phi) else 0 in
   qsum (map2 (fun z K => - z * (K - 1) / (1 + phi * (K - 1))) zs Ks) - a + b.
 
-(* vle.xy for two components: x[x < 0] = 1e-16; x /= x.sum(); y = x * Ks; y /= y.sum()
-   (np.seterr(divide='raise', invalid='raise'): a zero sum raises FloatingPointError) *)
+(* compute_phase_fraction_2N on the arrays it receives: z1, z2 = zs; K1, K2 = Ks *)
+Definition rr2v (zs Ks : vec) : res Q :=
+  unpack2 zs (fun z1 z2 => unpack2 Ks (fun K1 K2 => rr2 z1 z2 K1 K2)).
+
+(* vle.xy: x[x < 0] = 1e-16; x /= x.sum(); y = x * Ks; y /= y.sum() *)
 Definition c_1e16 : Q := 2028240960365167 # 20282409603651670423947251286016.
-Definition xy2 (x1 x2 K1 K2 : Q) : res ((Q * Q) * (Q * Q)) :=
-  let x1 := if qltb x1 0 then c_1e16 else x1 in
-  let x2 := if qltb x2 0 then c_1e16 else x2 in
-  let sx := x1 + x2 in
-  if qzerob sx then Err EZeroDiv else
-  let x1 := x1 / sx in let x2 := x2 / sx in
-  let y1 := x1 * K1 in let y2 := x2 * K2 in
-  let sy := y1 + y2 in
-  if qzerob sy then Err EZeroDiv else
-  Ok ((x1, x2), (y1 / sy, y2 / sy)).
+Definition xyn (x Ks : vec) : res (vec * vec) :=
+  let x1 := mask_lt 0 c_1e16 x in
+  guard_s (qsum x1) (
+  let x2 := vdivs x1 (qsum x1) in
+  let y := vmul x2 Ks in
+  guard_s (qsum y) (
+  let y1 := vdivs y (qsum y) in
+  Ok (x2, y1))).
 
 Definition clipK (k : Q) : Q := if qltb k c_1e16 then c_1e16 else k.
+(* 1. + V * (Ks - 1.) *)
+Definition rr_den (V : Q) (Ks : vec) : vec := map (fun a => 1 + a) (map (fun a => V * a) (map (fun a => a - 1) Ks)).
+(* Ks[:] = pcf_Psat_over_P * f_gamma(x, T, *gamma_args) / f_phi(y, T, P);  Ks[Ks < 1e-16] = 1e-16 *)
+Definition new_Ks (f_gamma : vec -> Q -> vec) (f_phi : vec -> Q -> Q -> vec) (pcf x y : vec) (T P : Q) : vec :=
+  mask_lt c_1e16 c_1e16 (map2 Qdiv (vmul pcf (f_gamma x T)) (f_phi y T P)).
 
-(* xVlogK_iter_2n without reactions; [E], [L] stand for np.exp, np.log; [G x1 x2] is
-   pcf_Psat_over_P * f_gamma(x, T) and [Ph y1 y2] is f_phi(y, T, P), both componentwise pairs *)
-Record w2 := mkw2 { wx1 : Q; wx2 : Q; wV : Q; wl1 : Q; wl2 : Q }.
-Definition iter2n (E L : Q -> Q) (G Ph : Q -> Q -> Q * Q) (z1 z2 : Q) (w : w2) : res w2 :=
-  let K1 := E (wl1 w) in let K2 := E (wl2 w) in
-  do xy <- xy2 (wx1 w) (wx2 w) K1 K2;
-  let '((x1, x2), (y1, y2)) := xy in
-  let (g1, g2) := G x1 x2 in
-  let (p1, p2) := Ph y1 y2 in
-  if qzerob p1 || qzerob p2 then Err EZeroDiv else
-  let K1 := clipK (g1 / p1) in let K2 := clipK (g2 / p2) in
-  do V <- rr2 z1 z2 K1 K2;
-  if qzerob (1 + V * (K1 - 1)) || qzerob (1 + V * (K2 - 1)) then Err EZeroDiv else
-  Ok (mkw2 (z1 / (1 + V * (K1 - 1))) (z2 / (1 + V * (K2 - 1))) V (L K1) (L K2)).
-
-(* ---------- n components: vle.xy and xVlogK_iter (no reactions) ---------- *)
-Definition xyn (x Ks : vec) : res (vec * vec) :=
-  let x := map (fun a => if qltb a 0 then c_1e16 else a) x in
-  let sx := qsum x in
-  if qzerob sx then Err EZeroDiv else
-  let x := vdivs x sx in
-  let y := vmul x Ks in
-  let sy := qsum y in
-  if qzerob sy then Err EZeroDiv else Ok (x, vdivs y sy).
-
-Record wn := mkwn { nx : vec; nV : Q; nl : vec }.
-(* [rrsolve z Ks V] stands for binary.solve_phase_fraction_Rashford_Rice(z, Ks, V, z_light, z_heavy)
-   (a bracketing solver: oracle) *)
-Definition itern (E L : Q -> Q) (G Ph : vec -> vec) (rrsolve : vec -> vec -> Q -> Q) (z : vec) (w : wn) : res wn :=
+(* xVlogK_iter_2n, non-reactive; [E], [L] stand for np.exp, np.log; f_gamma, f_phi are the activity / fugacity
+   coefficient functions the solver passes *)
+Definition iter2n (E L : Q -> Q) (f_gamma : vec -> Q -> vec) (f_phi : vec -> Q -> Q -> vec)
+           (w : wn) (pcf : vec) (T P : Q) (z : vec) : res wn :=
+  let x := nx w in
   let Ks := map E (nl w) in
-  do xy <- xyn (nx w) Ks;
-  let (x, y) := xy : vec * vec in
-  let g := G x in let p := Ph y in
-  if existsb qzerob p then Err EZeroDiv else
-  let Ks := map clipK (map2 Qdiv g p) in
-  let V0 := if qltb (nV w) 0 then 0 else if qltb 1 (nV w) then 1 else nV w in
-  let V := rrsolve z Ks V0 in
-  if existsb (fun k => qzerob (1 + V * (k - 1))) Ks then Err EZeroDiv else
-  Ok (mkwn (map2 (fun zi k => zi / (1 + V * (k - 1))) z Ks) V (map L Ks)).
+  bind (xyn x Ks) (fun xy_ =>
+  let x1 := fst xy_ in
+  let y := snd xy_ in
+  guard_v (f_phi y T P) (
+  let Ks2 := new_Ks f_gamma f_phi pcf x1 y T P in
+  bind (rr2v z Ks2) (fun V =>
+  guard_v (rr_den V Ks2) (
+  Ok (mkwn (map2 Qdiv z (rr_den V Ks2)) V (map L Ks2)))))).
+
+(* xVlogK_iter, non-reactive; [rrsolve z Ks V z_light z_heavy] stands for
+   binary.solve_phase_fraction_Rashford_Rice (a bracketing solver: oracle) *)
+Definition clamp01 (V : Q) : Q := if qltb V 0 then 0 else if qltb 1 V then 1 else V.
+Definition itern (E L : Q -> Q) (f_gamma : vec -> Q -> vec) (f_phi : vec -> Q -> Q -> vec)
+           (rrsolve : vec -> vec -> Q -> Q -> Q -> Q) (w : wn) (pcf : vec) (T P : Q) (z : vec) (z_light z_heavy : Q) : res wn :=
+  let x := nx w in
+  let Ks := map E (nl w) in
+  bind (xyn x Ks) (fun xy_ =>
+  let x1 := fst xy_ in
+  let y := snd xy_ in
+  guard_v (f_phi y T P) (
+  let Ks2 := new_Ks f_gamma f_phi pcf x1 y T P in
+  let V2 := rrsolve z Ks2 (clamp01 (nV w)) z_light z_heavy in
+  guard_v (rr_den V2 Ks2) (
+  Ok (mkwn (map2 Qdiv z (rr_den V2 Ks2)) V2 (map L Ks2))))).
 
 (* ---------- the equilibrium objects VLE._setup consults ----------
    _setup calls BubblePoint(eq_chems, thermo) and DewPoint(eq_chems, thermo); both constructors are memoised per process
@@ -130,15 +127,6 @@ Definition rr2_check (z1 z2 K1 K2 : Q) (expect : option Q) : bool :=
   | Err _, None => true
   | _, _ => false
   end.
-Definition w2_eqb (a b : w2) : bool :=
-  qapproxb (wx1 a) (wx1 b) && qapproxb (wx2 a) (wx2 b) && qapproxb (wV a) (wV b)
-  && qapproxb (wl1 a) (wl1 b) && qapproxb (wl2 a) (wl2 b).
-Definition iter2n_check (r : res w2) (expect : option w2) : bool :=
-  match r, expect with
-  | Ok a, Some b => w2_eqb a b
-  | Err _, None => true
-  | _, _ => false
-  end.
 Definition wn_eqb (a b : wn) : bool := vapproxb (nx a) (nx b) && qapproxb (nV a) (nV b) && vapproxb (nl a) (nl b).
 Definition itern_check (r : res wn) (expect : option wn) : bool :=
   match r, expect with
@@ -149,7 +137,5 @@ Definition itern_check (r : res wn) (expect : option wn) : bool :=
 (* rational stand-ins for exp / log and for the activity / fugacity-coefficient models *)
 Definition std_E (a b : Q) (l : Q) : Q := (a + l) / b.
 Definition std_L (c d : Q) (k : Q) : Q := (k - c) / d.
-Definition std_G2 (pc1 pc2 g0 g1 : Q) (x1 x2 : Q) : Q * Q := (pc1 * (g0 + g1 * x1), pc2 * (g0 + g1 * x2)).
-Definition std_P2 (p0 p1 : Q) (y1 y2 : Q) : Q * Q := (p0 + p1 * y1, p0 + p1 * y2).
-Definition std_Gn (pc : vec) (g0 g1 : Q) (x : vec) : vec := map2 (fun p xi => p * (g0 + g1 * xi)) pc x.
-Definition std_Pn (p0 p1 : Q) (y : vec) : vec := map (fun yi => p0 + p1 * yi) y.
+Definition std_gamma (g0 g1 : Q) (x : vec) (_ : Q) : vec := map (fun xi => g0 + g1 * xi) x.
+Definition std_phi (p0 p1 : Q) (y : vec) (_ _ : Q) : vec := map (fun yi => p0 + p1 * yi) y.
